@@ -49,6 +49,73 @@ class OpaqueStr:
         return self is o
 
 
+def differential_on_builder(ck, mir, res, facade_fn, method, vname, lv, nargs):
+    """facade method vs the concrete interpreter's method on arbitrary valid DigitString arguments (the state space of
+    C12: symbolic cells, length <= 8, zero count, marker): -> True (equal for every state), a Violation, or None"""
+    from .c12 import sym_state
+    from .c14 import values_equal
+    from .spelled import pc, merged
+    from .alphabet import vocabulary_words
+    cands = res.find_impl(vname, 'LangInterpreter', method)
+    if len(cands) != 1:
+        return None
+    conc_fn = mir.functions[cands[0]][-1]
+    states, valid = [], []
+    for i in range(nargs):
+        v, view, ok_ = sym_state(8, 12)
+        if i:      # second builder: fresh variable names
+            sub = [(x, z3.BitVec(str(x) + '_b', x.size())) for x in view.cells + [view.ln, view.lz, view.flags, view.mdisc]]
+            sub.append((view.frozen, z3.Bool('frozen_b')))
+            ok_ = [z3.substitute(c, *sub) for c in ok_]
+            from mirsym.values import Struct, Seq, Enum
+            cells = [z3.substitute(c, *sub) for c in view.cells]
+            ln, lz, fl, md = (z3.substitute(x, *sub) for x in (view.ln, view.lz, view.flags, view.mdisc))
+            v = Struct('DigitString', (Seq(tuple(cells), ln, 'u8'), lz, z3.Bool('frozen_b'), fl,
+                                       Enum('MorphologicalMarker', md, ((0, ('th',)), (1, ('avos',)), (2, ())))))
+        states.append(v)
+        valid += ok_
+    valid.append(z3.UGE(z3.BitVec('len', 64), 1))
+    inner = lv.payload(concrete_int(lv.disc))[0]
+    exa, exb = new_executor(valid, cap=12), new_executor(valid, cap=12)
+    try:
+        ra = exa.explore(facade_fn, [lv] + states)
+        rb = exb.explore(conc_fn, [inner] + states)
+    except Unsupported as e:
+        ck.inconclusive.append('differential %s::%s: %s' % (vname, method, e))
+        return None
+    ck.absorb(exa)
+    ck.absorb(exb)
+    cov = []
+    ma, mb = merged(cov, ra), merged(cov, rb)
+    fa = ma[0] if isinstance(ma, tuple) else ma
+    fb = mb[0] if isinstance(mb, tuple) else mb
+    r, m = ck.solve(valid + cov + [z3.Not(values_equal(fa, fb))])
+    if r == 'unsat':
+        return True
+    if r != 'sat':
+        ck.inconclusive.append('differential %s::%s undecided' % (vname, method))
+        return None
+    # replay through the public API: a vocabulary word on which facade and concrete interpreter disagree
+    iso = [c for (v_, c) in CTORS.values() if v_ == vname][0]
+    nat = ck.native()
+    md = m.eval(z3.BitVec('marker', 64), model_completion=True).as_long()
+    diffs = []
+    for w in sorted(vocabulary_words(mir, res, iso, with_inflections=True)):
+        t1, t2 = nat.t2d(iso, w, mode='facade'), nat.t2d(iso, w)
+        if t1 != t2:
+            diffs.append({'word': w, 'facade': t1.get('ok', t1), 'concrete': t2.get('ok', t2)})
+            if len(diffs) >= 3:
+                break
+    if not diffs:
+        ck.inconclusive.append('ENCODING-MISMATCH: %s::%s differs from the concrete method on a builder state (marker variant %d) '
+                               'but no vocabulary word shows it natively' % (vname, method, md))
+        return None
+    return Violation('delegate:%s:%s' % (vname, method), {'variant': vname, 'method': method},
+                     'Language::%s::%s is not delegated and differs from %s::%s: text2digits(%r) gives %r through the facade and %r directly'
+                     % (vname, method, vname, method, diffs[0]['word'], diffs[0]['facade'], diffs[0]['concrete']),
+                     {'variant': vname, 'method': method, 'marker_variant_in_model': md, 'native_differences': diffs})
+
+
 def run(ck: Check):
     mir, res, th, mh = load_mir()
     variants = res.enums.get('Language')
@@ -105,12 +172,30 @@ def run(ck: Check):
                     return recorder
                 return orig(path, a)
             ex2.lookup_callee = lookup
-            results = ex2.explore(fn, args, roots=roots)
+            inspects = None
+            try:
+                results = ex2.explore(fn, args, roots=roots)
+            except Unsupported as e:
+                # the facade method looks inside an (opaque) argument instead of forwarding it
+                results, inspects = [], str(e)
             ck.absorb(ex2)
             ck.obligations += 1
+            if inspects is not None and all(a in ('ds', 'ds2') for a in spec):
+                # not a forwarded call: decide equality with the concrete interpreter on an arbitrary builder state
+                verdict = differential_on_builder(ck, mir, res, fn, method, vname, lv, len(spec))
+                if verdict is True:
+                    ck.discharged += 1
+                    ck.notes.append('%s::%s is not a single forwarded call (%s) but equals the concrete method on every '
+                                    'builder state of at most 8 digits' % (vname, method, inspects))
+                    continue
+                if verdict is not None:
+                    ck.violations.append(verdict)
+                    continue
             good = len(results) == 1 and len(calls) == 1 and not ex2.panics
             why = ''
-            if good:
+            if inspects is not None:
+                good, why = False, 'the method inspects its argument: ' + inspects
+            elif good:
                 path, cargs = calls[0]
                 inner = cargs[0]
                 want_inner = lv.payload(concrete_int(lv.disc))[0]
@@ -121,7 +206,7 @@ def run(ck: Check):
                 good = good and len(cargs) == len(args) and all(x is y or same(x, y) for x, y in zip(cargs[1:], args[1:]))
                 good = good and isinstance(results[0].ret, Opaque) and results[0].ret.kind == 'ret'
                 why = 'called %s' % path
-            else:
+            elif inspects is None:
                 why = '%d paths, %d inner calls, %d panics' % (len(results), len(calls), len(ex2.panics))
             if good:
                 ck.discharged += 1
